@@ -1,9 +1,93 @@
-/- stub: transcription of rrul_fill_Yly pending -/
-import Echse.Model.RrBase
+/-
+  Model of `rrul_fill_yly` (src/evrrul.c): FREQ=YEARLY, SCALE=GREGORIAN.
+  Branch-by-branch transcription; the candidate builders and the emission loop are in `Echse.Model.RrCand`.
+  Tied to the C code by tools/rrfillprobe.py (`r.fill` lines through harness and model).
+-/
+import Echse.Model.RrCand
 namespace Echse.Rrule
 open Echse.Instant
 
-/-- `none` = not modelled yet -/
-def fillYly (_r : Rule) (_proto : Inst) (_nti : Nat) : Option (List Inst) := none
+/-- what `rrul_fill_yly` sets up before its loop -/
+structure YlyCtx where
+  k : FillCtx
+  r : Rule
+  ms : List Nat          -- `m[0 .. nm)`
+  ds : List Int          -- `d[0 .. nd)`
+  wdMask : Nat
+  pdow : List Int        -- the weekday to go with BYWEEKNO when there is no BYDAY
+
+/-- the candidates of year `y`: the body of the fill loop up to "limit by setpos" -/
+def ylyCand (c : YlyCtx) (y : Nat) : List Nat :=
+  let r := c.r
+  let nm := c.ms.length
+  let nd := c.ds.length
+  let cand : List Nat := []
+  -- stick to note 2 on page 44, RFC 5545
+  let cand :=
+    if c.wdMask ≠ 0 ∧ (nd ≠ 0 ∨ !r.doy.isEmpty) then cand                 -- yd/ymd, dealt with later
+    else if c.wdMask ≠ 0 ∧ !r.wk.isEmpty then fillYlyYwd cand y r.wk r.dow
+    else if !c.pdow.isEmpty then fillYlyYwd cand y r.wk c.pdow
+    else if c.wdMask ≠ 0 ∧ nm ≠ 0 then
+      let cand := if c.wdMask % 2 = 1 then fillYlyYmcw cand y r.dow c.ms else cand
+      fillYlyMdAll cand y c.ms c.wdMask
+    else if c.wdMask ≠ 0 then
+      let cand := if c.wdMask % 2 = 1 then fillYlyYcw cand y r.dow else cand
+      fillYlyYdAll cand y c.wdMask
+    else cand
+  -- extend by yd
+  let cand := fillYlyYd cand y r.doy c.wdMask
+  -- extend by ymd; in presence of BYEASTER the months and days act as a filter
+  if !r.easter.isEmpty then fillYlyEastr cand y r.easter r.mon r.dom c.wdMask
+  else if nm = 0 ∧ nd = 0 then cand
+  else if nm = 0 then fillYlyYmdAllM cand y c.ds c.wdMask
+  else if nd = 0 then fillYlyYmdAllD cand y c.ms c.wdMask
+  else fillYlyYmd cand y c.ms c.ds c.wdMask
+
+/-- `for (res = 0, tries = 64; res < nti && --tries; y += rr->inter) { … }`.
+`tries` is the value before the loop condition decrements it. -/
+def ylyLoop (c : YlyCtx) : Nat → Nat → Nat → FillSt → FillSt
+  | 0, _, _, st => st
+  | fuel+1, y, tries, st =>
+    if !(st.res < c.k.nti) then st else
+    let tries := tries - 1
+    if tries = 0 then st else
+    if y > maxYear then st else                    -- beyond the supported range: break
+    let st := finishPeriod c.k y (ylyCand c y) st
+    if st.fin then st else
+    ylyLoop c fuel ((y + c.r.inter) % u32) (if st.hit then 64 else tries) st
+
+/-- `rrul_fill_yly(tgt, nti, rr)` with `*tgt = proto`: the instants written to `tgt[0 .. res)`.
+`none`: not modelled (other scales; a proto carrying scale bits).
+
+Fuel: the body runs only while `y ≤ 2099`, and `y` moves by `inter` modulo 2^32 from round to round.  With
+`inter ≠ 0` the values of `y` inside the window 0..2099 are strictly monotone (up for a small `inter`, down for one
+close to 2^32, out at once otherwise), so there are at most 2100 rounds.  With `inter = 0` the year stands still;
+without a SHIFT every round that sets `tries` back also writes an instant (at most `nti` such rounds, the loop ends
+once `res ≥ nti`) and no more than 63 rounds without a write follow one another: at most `64 * (nti + 1)` rounds.
+(`inter = 0` with a SHIFT: the shift-collision test sets `tries` back without writing, the C loop may never end;
+the model then stops when the fuel is used up.  The parser turns INTERVAL=4294967296 into `inter = 0`.) -/
+def fillYly (r : Rule) (proto : Inst) (nti : Nat) : Option (List Inst) :=
+  if r.scale ≠ 0 ∨ proto.y ≥ 4096 then none else
+  match capNti r nti with
+  | none => some []                                -- COUNT used up: `goto fin`
+  | some nti =>
+    -- check if we're ymd only
+    let ymdp := r.wk.isEmpty ∧ r.dow.isEmpty ∧ r.doy.isEmpty ∧ r.easter.isEmpty ∧ r.dom.isEmpty
+    let k := mkFillCtx r proto nti
+    let ms := r.mon.take 12
+    let ms := if ms.isEmpty ∧ ymdp ∧ proto.m ≠ 0 then [proto.m] else ms
+    let ds := r.dom.take 62
+    let ds := if ds.isEmpty ∧ ymdp ∧ proto.d ≠ 0 then [(proto.d : Int)] else ds
+    let wdMask := wdMaskOf r.dow
+    -- BYWEEKNO on its own, the weekday is DTSTART's then
+    let pdow : List Int :=
+      if wdMask = 0 ∧ !r.wk.isEmpty ∧ ms.isEmpty ∧ ds.isEmpty ∧ r.doy.isEmpty ∧ proto.m ≠ 0 ∧ proto.m ≤ 12 then
+        [(ymdGetWday proto.y proto.m proto.d : Int)]
+      else []
+    -- `if ((dvalue > 0 || bday_p && !neg_p) && rr->inter <= y) y -= rr->inter;` go back a whole interval
+    let y := proto.y
+    let y := if (shDvalue r.shift > 0 ∨ (shBdayP r.shift ∧ !shNegP r.shift)) ∧ r.inter ≤ y then y - r.inter else y
+    let c : YlyCtx := { k := k, r := r, ms := ms, ds := ds, wdMask := wdMask, pdow := pdow }
+    some (ylyLoop c (64 * (nti + 1) + 2101) y 64 {}).out.reverse
 
 end Echse.Rrule
